@@ -166,6 +166,8 @@ theorem lockPrelude_spec (h k : Nat) : ∀ (fuel : Nat) (a : Api) (limit : Limit
         · -- panic round
           refine ⟨inv_dropAll cands _ hstep, fun _ => ?_⟩
           rw [dropAll_hs_other cands h hnc]; exact hf1
+        · exact ⟨hstep, by simp [Res.isAbort]⟩
+        · exact ⟨hstep, by simp [Res.isAbort]⟩
         · have hi2 := inv_runActs cands { a with s := (step a.s (.limitLookup h k n (List.range' h0 supplyLen))).1 }
             (script.head?.getD defaultRound).acts hstep
           have hf2 := runActs_hs_other cands h hnc { a with s := (step a.s (.limitLookup h k n (List.range' h0 supplyLen))).1 }
